@@ -19,10 +19,16 @@ from collections.abc import Iterable, Sequence
 import chartparse.globalevents
 from chartparse.event import Event
 from chartparse.exceptions import RegexNotMatchError, UnreachableError
-from chartparse.instrument import StarPowerEvent, TrackEvent
-from chartparse.sync import AnchorEvent, BPMEvent, BPMEvents, TimeSignatureEvent
 from chartparse.tick import Ticks
 from chartparse.util import DictPropertiesEqMixin, DictReprTruncatedSequencesMixin
+
+if typ.TYPE_CHECKING:  # pragma: no cover
+    # chartparse.instrument and chartparse.sync import this module, so importing names from them at
+    # module scope makes `import chartparse.instrument` (or `chartparse.sync`) fail with a circular
+    # ImportError when it is the first chartparse import. They are needed here only for annotations;
+    # ``build_events_from_data`` imports them when called.
+    from chartparse.instrument import StarPowerEvent, TrackEvent
+    from chartparse.sync import AnchorEvent, BPMEvent, BPMEvents, TimeSignatureEvent
 
 logger = logging.getLogger(__name__)
 
@@ -191,6 +197,10 @@ def build_events_from_data(
     | list[chartparse.globalevents.SectionEvent]
     | list[chartparse.globalevents.TextEvent]
 ):
+    # Imported at call time; see the note next to the TYPE_CHECKING imports above.
+    from chartparse.instrument import StarPowerEvent, TrackEvent
+    from chartparse.sync import AnchorEvent, BPMEvent, BPMEvents, TimeSignatureEvent
+
     def data_to_anchor_events(datas: Iterable[AnchorEvent.ParsedData]) -> list[AnchorEvent]:
         events: list[AnchorEvent] = []
         for data in datas:
